@@ -38,7 +38,12 @@ SlashCount(s) == Cardinality({i \in 1..Len(s) : s[i] = 47})
 CtTextOK(s) == s # <<>> /\ ~StartsWithWs(s) /\ ~EndsWithWs(s) /\ SlashCount(s) = 1
 
 NonEmptyBytes(v) ==
-  IF v.t # "bytes" THEN TypeErr ELSE IF v.b = <<>> THEN TypeErr ELSE Good(v.b)
+  IF v.t # "bytes" THEN WrongType(v, "bstr") ELSE IF v.b = <<>> THEN Unexp("empty bstr", "non-empty bstr") ELSE Good(v.b)
+(* the three content-type text checks, in code order *)
+CtTextErr(s) ==
+  IF s = <<>> THEN Unexp("empty tstr", "non-empty tstr")
+  ELSE IF StartsWithWs(s) \/ EndsWithWs(s) THEN Unexp("leading/trailing whitespace", "no leading/trailing whitespace")
+  ELSE Unexp("arbitrary text", "text of form type/subtype")
 
 (* ======================================================================= *)
 (*                               Design                                    *)
@@ -65,13 +70,13 @@ HdrStep(st, l, v) ==
   IF IsStd(l, 1) THEN
     LET r == RegPriv_FromCbor("Algorithm", v) IN IF r.ok THEN Good([st EXCEPT !.alg = <<r.x>>]) ELSE r
   ELSE IF IsStd(l, 2) THEN
-    IF v.t # "array" THEN TypeErr
-    ELSE IF v.a = <<>> THEN TypeErr
+    IF v.t # "array" THEN WrongType(v, "array value")
+    ELSE IF v.a = <<>> THEN Unexp("empty array", "non-empty array")
     ELSE LET r == CritFrom(v.a, st.crit) IN IF r.ok THEN Good([st EXCEPT !.crit = r.x]) ELSE r
   ELSE IF IsStd(l, 3) THEN
     LET r == RegLabel_FromCbor("CoapContentFormat", v) IN
     IF ~r.ok THEN r
-    ELSE IF r.x.k = "text" /\ ~CtTextOK(r.x.s) THEN TypeErr
+    ELSE IF r.x.k = "text" /\ ~CtTextOK(r.x.s) THEN CtTextErr(r.x.s)
     ELSE Good([st EXCEPT !.ct = <<r.x>>])
   ELSE IF IsStd(l, 4) THEN
     LET r == NonEmptyBytes(v) IN IF r.ok THEN Good([st EXCEPT !.kid = r.x]) ELSE r
@@ -80,13 +85,13 @@ HdrStep(st, l, v) ==
   ELSE IF IsStd(l, 6) THEN
     LET r == NonEmptyBytes(v) IN IF r.ok THEN Good([st EXCEPT !.piv = r.x]) ELSE r
   ELSE IF IsStd(l, 7) THEN
-    IF v.t # "array" THEN TypeErr
-    ELSE IF v.a = <<>> THEN TypeErr
+    IF v.t # "array" THEN WrongType(v, "array")
+    ELSE IF v.a = <<>> THEN Unexp("empty sig array", "non-empty sig array")
     ELSE IF v.a[1].t = "bytes" THEN
       LET r == Sig_FromCbor(v) IN IF r.ok THEN Good([st EXCEPT !.cs = Append(@, r.x)]) ELSE r
     ELSE IF v.a[1].t = "array" THEN
       LET r == SigsFrom(v.a, st.cs) IN IF r.ok THEN Good([st EXCEPT !.cs = r.x]) ELSE r
-    ELSE TypeErr
+    ELSE WrongType(v.a[1], "array or bstr value")
   ELSE Good([st EXCEPT !.rest = Append(@, <<l, v>>)])
 
 HdrFold(m, st, seen) ==
@@ -96,10 +101,10 @@ HdrFold(m, st, seen) ==
     ELSE IF lr.x \in seen THEN Err("DuplicateMapKey")
     ELSE LET r == HdrStep(st, lr.x, m[1][2]) IN
       IF ~r.ok THEN r
-      ELSE IF r.x.iv # <<>> /\ r.x.piv # <<>> THEN TypeErr
+      ELSE IF r.x.iv # <<>> /\ r.x.piv # <<>> THEN Unexp("IV and partial-IV specified", "only one of IV and partial IV")
       ELSE HdrFold(Tail(m), r.x, seen \cup {lr.x})
 
-Header_FromCbor(v) == IF v.t # "map" THEN TypeErr ELSE HdrFold(v.m, EmptyHeader, {})
+Header_FromCbor(v) == IF v.t # "map" THEN WrongType(v, "map") ELSE HdrFold(v.m, EmptyHeader, {})
 
 (* Header::from_slice *)
 Header_FromSlice(b) ==
@@ -108,16 +113,16 @@ Header_FromSlice(b) ==
 
 (* ProtectedHeader::from_cbor_bstr *)
 Prot_FromBstr(v) ==
-  IF v.t # "bytes" THEN TypeErr
+  IF v.t # "bytes" THEN WrongType(v, "bstr")
   ELSE IF v.b = <<>> THEN Good([orig |-> <<v.b>>, hdr |-> EmptyHeader])
   ELSE LET r == Header_FromSlice(v.b) IN
     IF r.ok THEN Good([orig |-> <<v.b>>, hdr |-> r.x]) ELSE r
 
 (* CoseSignature::from_cbor_value: arity, then slots last to first *)
 Sig_FromCbor(v) ==
-  IF v.t # "array" THEN TypeErr
-  ELSE IF Len(v.a) # 3 THEN TypeErr
-  ELSE IF v.a[3].t # "bytes" THEN TypeErr
+  IF v.t # "array" THEN WrongType(v, "array")
+  ELSE IF Len(v.a) # 3 THEN Unexp("array", "array with 3 items")
+  ELSE IF v.a[3].t # "bytes" THEN WrongType(v.a[3], "bstr")
   ELSE LET u == Header_FromCbor(v.a[2]) IN
     IF ~u.ok THEN u
     ELSE LET p == Prot_FromBstr(v.a[1]) IN
